@@ -501,7 +501,7 @@ fn run_case(s: &mut Session, c: &Case) {
 // ------------------------------------------------------------------ generators
 
 fn gen_gap(r: &mut Rng, iv: u64) -> u64 {
-    let k = r.range(2, 30);
+    let k = if r.chance(1, 5) { r.range(2, 30) } else { r.range(2, 3) };
     match r.below(24) {
         0..=3 => 0,
         4 => 1,
@@ -558,11 +558,17 @@ fn gen_case(r: &mut Rng, rate: Option<u8>, multi: bool, tag: &str) -> Case {
         .collect();
     let mut now = bars.iter().map(|b| b.0).max().unwrap();
     // op style: 0 = ticks only (pure target limiter), 1 = inc(1) only (continuous update), 2 = mixed
-    let style = r.below(4).min(2);
+    let style = if rate.is_some() { *r.pick(&[0u64, 0, 0, 1, 2, 2, 2]) } else { *r.pick(&[1u64, 1, 2, 2, 2]) };
     // time pattern
-    let pattern = r.below(6);
-    let len = r.range(1, 90) as usize + if r.chance(1, 6) { 60 } else { 0 };
+    let pattern = *r.pick(&[0u64, 0, 1, 1, 2, 3, 3, 4, 4, 5, 6, 6, 6, 7]);
+    let len = if r.chance(1, 12) { r.range(1, 8) } else { r.range(24, 110) } as usize + if r.chance(1, 6) { 40 } else { 0 };
     let mut ops = vec![];
+    // most cases first empty the target's bucket so that the boundary gaps decide the verdicts
+    let predrain = if r.chance(2, 3) { 21 + r.below(3) as usize } else { 0 };
+    for _ in 0..predrain {
+        now += r.below(2);
+        ops.push((now, r.below(nb as u64) as usize, if style == 1 { Op::Tick } else { gen_op(r, style.min(2)) }));
+    }
     for k in 0..len {
         let g = match pattern {
             0 => gen_gap(r, iv),
@@ -591,6 +597,14 @@ fn gen_case(r: &mut Rng, rate: Option<u8>, multi: bool, tag: &str) -> Case {
                     r.below(3)
                 }
             }
+            6 | 7 => {
+                // instants on the limiter's own grid (creation + m*I + {-1,0,+1}): `prev` stays on
+                // that grid, so these hit `elapsed == I` / `== I-1` exactly with an empty bucket
+                let (origin, step) = if pattern == 6 { (t0, iv) } else { (bars[0].0, MS) };
+                let m = (now.saturating_sub(origin)) / step + r.below(3).min(1) + if r.chance(1, 10) { r.below(4) } else { 0 };
+                let target = (origin + m * step + *r.pick(&[0u64, 0, 1, 2]) + r.below(2).min(1)).saturating_sub(1);
+                target.max(now) - now
+            }
             _ => {
                 if r.chance(1, 2) {
                     gen_gap(r, iv)
@@ -609,26 +623,27 @@ fn corpus() -> Vec<Case> {
     let t0 = ORIGIN_NS;
     let ticks = |times: Vec<u64>| -> Vec<(u64, usize, Op)> { times.into_iter().map(|t| (t, 0, Op::Tick)).collect() };
     let mut v = vec![];
-    // D12 (fixed by e4a1051): 20 Hz, 23 requests within 1 microsecond – at most 20 may be painted
-    v.push(Case {
-        multi: false,
-        rate: Some(20),
-        t0,
-        bars: vec![(t0, 100)],
-        ops: ticks((0..23).map(|k| t0 + 40 * k).collect()),
-        tag: "corpus:D12-burst".into(),
-    });
-    // D12 with the carried remainder token: full bucket, request just before a token matures,
-    // then a burst
+    // D12 (fixed by e4a1051): 20 Hz, full bucket; 21 requests 1 ns before the second token
+    // matures and one when it does: the old code painted all 22 within 1 ns (a request that met a
+    // full bucket was free, plus the carried token); at most 21 may be painted
     v.push(Case {
         multi: false,
         rate: Some(20),
         t0,
         bars: vec![(t0, 100)],
         ops: ticks(
-            std::iter::once(t0 + 50_000_000 - 1).chain((0..24).map(|k| t0 + 50_000_000 + k)).collect(),
+            std::iter::repeat(t0 + 100_000_000 - 1).take(21).chain([t0 + 100_000_000, t0 + 100_000_000]).collect(),
         ),
-        tag: "corpus:D12-carried-token".into(),
+        tag: "corpus:D12-burst-22-in-1ns".into(),
+    });
+    // the same from a fresh bucket: 23 requests within 1 microsecond
+    v.push(Case {
+        multi: false,
+        rate: Some(20),
+        t0,
+        bars: vec![(t0, 100)],
+        ops: ticks((0..23).map(|k| t0 + 40 * k).collect()),
+        tag: "corpus:burst-from-new".into(),
     });
     // D13 (fixed by 3894c8b): 255 Hz, one request every 3 ms (the old interval) for 1.2 s
     v.push(Case {
@@ -648,14 +663,19 @@ fn corpus() -> Vec<Case> {
         ops: ticks((0..300).map(|k| t0 + 333 * MS * k).collect()),
         tag: "corpus:D13-3Hz-every-333ms".into(),
     });
-    // D12 on the position limiter: 13 inc within 1 microsecond on an unthrottled target
+    // D12 on the position limiter (unthrottled target): 11 inc 1 ns before the second token
+    // matures and one when it does – the old code let all 12 through within 1 ns
     v.push(Case {
         multi: false,
         rate: None,
         t0,
         bars: vec![(t0, 100)],
-        ops: (0..13).map(|k| (t0 + k, 0, Op::Inc(1))).collect(),
-        tag: "corpus:D12-pos-burst".into(),
+        ops: std::iter::repeat(t0 + 2 * MS - 1)
+            .take(11)
+            .chain([t0 + 2 * MS, t0 + 2 * MS])
+            .map(|t| (t, 0, Op::Inc(1)))
+            .collect(),
+        tag: "corpus:D12-pos-burst-12-in-1ns".into(),
     });
     // position limiter: carried token, then reset() in the middle of a drained bucket
     v.push(Case {
@@ -733,7 +753,7 @@ fn main() {
     for c in corpus() {
         run_case(&mut s, &c);
     }
-    let per_rate: usize = if a.thorough { 14 } else if a.extended { 40 } else { 12 };
+    let per_rate: usize = if a.thorough { 14 } else if a.extended { 40 } else { 16 };
     let rates: Vec<u8> = if a.thorough || a.extended { (1..=255).collect() } else { QUICK_RATES.to_vec() };
     for &rate in &rates {
         for k in 0..per_rate {
@@ -743,7 +763,7 @@ fn main() {
         }
     }
     // unthrottled target: the position limiter alone
-    let n_free = if a.thorough { 600 } else if a.extended { 1500 } else { 150 };
+    let n_free = if a.thorough { 600 } else if a.extended { 1500 } else { 200 };
     for k in 0..n_free {
         let c = gen_case(&mut r, None, k % 5 == 4, "gen");
         run_case(&mut s, &c);
